@@ -713,6 +713,43 @@ def verify_roundtrip(reg: Registry, rt: RoundTrip, opts=None):
                 eq = equals(I, x.fields[fname], x2.fields[fname])
                 path.prove(I.as_bool_expr(eq), f"{tag}.field-equal[{fname}]", kind="roundtrip")
             path.prove(I.as_bool_expr(equals(I, w2, w2)), f"{tag}.reached", kind="roundtrip")
+            # ---- second direction: every well-formed VALUE survives encode-then-decode.  The
+            # field kinds are learnt from the decoded record; fresh unconstrained values of those
+            # kinds go through the real constructor (which applies the class's own validation).
+            import inspect as _inspect
+
+            init = real_init(cls)
+            pnames = [p for p in _inspect.signature(init).parameters][3:]
+            if pnames and all(p in x.fields for p in pnames):
+                kw = {}
+                for pn in pnames:
+                    kw[pn] = I.havoc_like(x.fields[pn], "v_" + pn) if not isinstance(x.fields[pn], (tuple, SObj)) else None
+                if all(v is not None for v in kw.values()):
+                    try:
+                        y = I.call(cls, [rt.rdclass, rt.rdtype], kw)
+                    except PyExc:
+                        raise PathEnd()  # the constructor refuses this value: not well-formed
+                    f3 = SBytesIO(z3.Empty(S.SeqI), z3.IntVal(0))
+                    try:
+                        I.call(BoundMethod(y, enc, "_to_wire"), [f3, None, None, False], {})
+                    except PyExc as e:
+                        path.prove(z3.BoolVal(False), f"{tag}.value.encode-raises[{e.cls.__name__}]", kind="roundtrip")
+                        raise PathEnd()
+                    p3 = mkparser(SBytes(f3.buf, "bytes"))
+                    try:
+                        y2 = I.call(BoundMethod(cls, dec, "from_wire_parser"), [rt.rdclass, rt.rdtype, p3, None], {})
+                    except PyExc as e:
+                        path.prove(z3.BoolVal(False), f"{tag}.value.decode-raises[{e.cls.__name__}]", kind="roundtrip")
+                        raise PathEnd()
+                    path.prove(to_z3(p3.fields["current"]) == to_z3(p3.fields["end"]), f"{tag}.value.decode-consumes-exactly", kind="roundtrip")
+                    for fname in sorted(y.fields):
+                        if fname == "rdcomment" or fname not in y2.fields:
+                            continue
+                        path.prove(I.as_bool_expr(equals(I, y.fields[fname], y2.fields[fname])), f"{tag}.value.field-equal[{fname}]", kind="roundtrip")
+                else:
+                    res["note"] = (res.get("note") or "") + " | value direction not attempted (structured field)"
+            else:
+                res["note"] = (res.get("note") or "") + " | value direction not attempted (constructor parameters differ from field names)"
             if path.final_cover():
                 res["covers"] += 1
                 o["have_cover"] = True
